@@ -45,29 +45,29 @@ type Remote struct {
 
 	mu sync.Mutex
 	// --- what we told storrent (current / at window start) ---
-	window      bool
-	adv, advP   []bool          // pieces we advertise
-	choking     bool            // we choke storrent
-	chokingP    bool
-	fastSet     map[uint32]bool // allowed-fast we sent
-	reqq        int             // advertised queue depth, 0 = none
-	extSent     bool
-	extIDs      map[string]int64 // ids we asked storrent to use (m dict)
+	window    bool
+	adv, advP []bool // pieces we advertise
+	choking   bool   // we choke storrent
+	chokingP  bool
+	fastSet   map[uint32]bool // allowed-fast we sent
+	reqq      int             // advertised queue depth, 0 = none
+	extSent   bool
+	extIDs    map[string]int64 // ids we asked storrent to use (m dict)
 	// --- requests storrent has outstanding with us ---
-	out   map[BlockKey]int  // outstanding (count)
-	outP  map[BlockKey]bool // were outstanding at window start or during the window
-	canc  map[BlockKey]bool // cancelled by storrent, not answered
+	out     map[BlockKey]int  // outstanding (count)
+	outP    map[BlockKey]bool // were outstanding at window start or during the window
+	canc    map[BlockKey]bool // cancelled by storrent, not answered
 	everReq map[BlockKey]bool
 	// --- storrent's state as told to us ---
-	stChoking    bool // storrent chokes us
-	stChokeW     bool // its choke state changed since the last cut
-	stInterested bool
-	stHave       map[uint32]bool
-	stHaveAll    bool
-	gotBitfield  bool
-	gotAdvert    bool // bitfield / have-all / have-none seen
+	stChoking     bool // storrent chokes us
+	stChokeW      bool // its choke state changed since the last cut
+	stInterested  bool
+	stHave        map[uint32]bool
+	stHaveAll     bool
+	gotBitfield   bool
+	gotAdvert     bool // bitfield / have-all / have-none seen
 	nonAdvertSeen bool // a message other than port/ext-handshake/advert seen
-	stExt        *refwire.Ext0
+	stExt         *refwire.Ext0
 	// --- our requests to storrent (leecher role) ---
 	ours       map[BlockKey]int  // certainly outstanding (count): must not be answered twice, may be answered once
 	opt        map[BlockKey]int  // sent in an ambiguous choke state: may or may not be served
@@ -83,20 +83,20 @@ type Remote struct {
 	Counts  map[string]int
 	closed  bool
 	quit    chan struct{}
-	auto    chan BlockKey // auto-seed: requests to answer
+	auto    chan BlockKey      // auto-seed: requests to answer
 	unsolW  map[[2]uint32]bool // blocks for which we sent data nobody had asked for, since the last cut
 	maybe   map[BlockKey]int   // requests that crossed with such data: storrent may count them as answered
-	tainted bool          // it has stopped reading at some point: messages it read afterwards were sent at unknown earlier
+	tainted bool               // it has stopped reading at some point: messages it read afterwards were sent at unknown earlier
 	// moments, possibly before its own chokes / advert changes, so request bookkeeping that depends on what was
 	// outstanding when (while-choked, duplicate, queue depth, not-advertised, cancels) is no longer judged for it
-	pauseUntil time.Time
-	lastCut    time.Time
-	readErr error
-	done    chan struct{}
+	pauseUntil   time.Time
+	lastCut      time.Time
+	readErr      error
+	done         chan struct{}
 	HonestAdvert bool // advertisement followed the protocol (remote view of availability is meaningful)
 	weInterested bool
 	Honest       bool // auto-seed that answers every request with the truth
-	MetaKnown bool // storrent had metadata when the connection started (bitfield rules apply)
+	MetaKnown    bool // storrent had metadata when the connection started (bitfield rules apply)
 }
 
 // Connect attaches a scripted remote to the torrent through Torrent.NewPeer.
